@@ -64,7 +64,7 @@ Definition br_read (n : nat) (b : breader) : bytes * bool * breader :=
   | l => (firstn n l, false, set_buf b (skipn n l))
   end.
 
-(* the code BEFORE fix e4e565a: data := make([]byte, n); _, err = buf.Read(data) - one Read, count ignored *)
+(* the code BEFORE fix 0373e10: data := make([]byte, n); _, err = buf.Read(data) - one Read, count ignored *)
 Definition br_read_once (n : N) (b : breader) : outcome (bytes * breader) :=
   if n =? 0 then Ok ([], b) else
   let '(got, eof, b') := br_read (N.to_nat n) b in
